@@ -370,8 +370,12 @@ def evaluate_case(kind, ops, impl):
 
 
 # ------------------------------------------------------------------ running
+SHORT_WRITES = [0]   # 0 = off; k = every pwrite of more than k bytes is cut to k (set per batch, kept for the re-runs that minimise a failure)
+
+
 def run_pair(exe, drv, cases, tag, timeout=900):
-    """cases: list of (kind, ops).  One process each for the real code and the model."""
+    """cases: list of (kind, ops).  One process each for the real code and the model.
+    Every other batch runs the real code under short writes (a legal kernel behaviour): same files expected."""
     lines, starts = [], []
     for i, (kind, ops) in enumerate(cases):
         starts.append(len(lines))
@@ -380,7 +384,10 @@ def run_pair(exe, drv, cases, tag, timeout=900):
     script = "\n".join(lines) + "\n"
     root = os.path.join(SCRATCH, tag)
     os.makedirs(root, exist_ok=True)
-    rc_i, impl, err_i = C.run_lines(exe, script, timeout=timeout, args=[root])
+    env = dict(C.SAN_ENV)
+    if SHORT_WRITES[0]:
+        env["VERIF_SHORT_WRITES"] = str(SHORT_WRITES[0])
+    rc_i, impl, err_i = C.run_lines(exe, script, timeout=timeout, args=[root], env=env)
     shutil.rmtree(root, ignore_errors=True)      # scratch files of this batch (the harness removes its case directories)
     rc_m, model, err_m = C.run_lines(drv, script, timeout=timeout)
     impl = [l for l in impl if l != ""]
@@ -498,6 +505,7 @@ def explore(ctx, exe, drv):
     B = 60 if thorough else 50
     for b0 in range(0, len(cases), B):
         batch = cases[b0:b0 + B]
+        SHORT_WRITES[0] = [0, 7, 0, 100, 0, 1, 0, 4096][(b0 // B) % 8]
         res = run_pair(exe, drv, batch, "b%d" % (b0 // B))
         sl = case_slices(res, len(batch))
         crashed_at = None
